@@ -34,12 +34,14 @@ Same == subs' = subs /\ reg' = reg
 
 PropOf(e) ==
   CASE e.a = "Subscribe" -> P_Subscribe(e.args.g, e.args.c, e.args.e, e.args.bad)
+    [] e.a = "Burst" -> P_Burst(e.args.g, e.args.cs, e.args.e)
     [] e.a = "Cancel" -> P_Cancel(e.args.s)
     [] e.a = "LoopExit" -> P_LoopExit(e.args.s)
     [] OTHER -> Same
 
 ImplOf(e) ==
   CASE e.a = "Subscribe" -> DoSubscribe(e.args.g, e.args.c, e.args.e, e.args.bad)
+    [] e.a = "Burst" -> DoBurst(e.args.g, e.args.cs, e.args.e)
     [] e.a = "Cancel" -> DoCancelByClient(e.args.s)
     [] e.a = "LoopExit" -> DoLoopExit(e.args.s)
     [] OTHER -> Same
